@@ -98,8 +98,8 @@ func (rt *runtimeState) runEvent(id int, from *Goroutine) {
 	t.armed = false
 	switch {
 	case t.ch != nil:
-		if len(t.ch.buf) < t.ch.cap {
-			t.ch.buf = append(t.ch.buf, ex.timeValue(now))
+		if firstLive(&t.ch.recvq) != nil || len(t.ch.buf) < t.ch.cap {
+			rt.doSend(t.ch, ex.timeValue(now))
 		}
 	case t.fn != nil:
 		rt.spawn(nil, t.fn, nil)
